@@ -23,16 +23,18 @@ const (
 	LkRemoveProbe
 	LkOpenBatch
 	LkRegisterProbe
+	LkReset
 )
 
 var lkNames = map[uint8]string{LkOpen: "Open", LkNext: "Next", LkStep: "Step", LkCount: "Count", LkEntityAt: "EntityAt", LkClose: "Close",
-	LkToggle: "Add/Remove(unlocked)", LkRemoveProbe: "RemoveEntity+listener-probe", LkOpenBatch: "OpenBatchQ", LkRegisterProbe: "RegisterType(after rejected registration)"}
+	LkToggle: "Add/Remove(unlocked)", LkRemoveProbe: "RemoveEntity+listener-probe", LkOpenBatch: "OpenBatchQ", LkRegisterProbe: "RegisterType(after rejected registration)", LkReset: "Reset (and re-create the same entities)"}
 
 // LockCfg is the world-lock scenario: a fixed small world; the state is the set of open queries.
 type LockCfg struct {
 	ID     string
 	Q      int // max open queries
 	Probes int // budget of entity removals with a probing listener
+	Resets int // budget of World.Reset calls
 }
 
 // Name implements wx.Scenario.
@@ -88,6 +90,7 @@ type LockRun struct {
 	cached    ecs.CachedFilter
 	qs        []*lq
 	probes    int
+	resets    int
 	regProbed bool
 	relTarget int // which of e1/e2 the relation children point to
 	zOn       bool
@@ -111,6 +114,14 @@ func (c *LockCfg) New() wx.Run {
 	r.r = ecs.ComponentID[CompR](w)
 	r.z = ecs.ComponentID[CompZ](w)
 	r.d = ecs.ComponentID[CompD](w)
+	r.seed()
+	r.cached = w.Cache().Register(ecs.All(r.a))
+	r.entries = r.structuralEntries()
+	return r
+}
+
+func (r *LockRun) seed() {
+	w := &r.w
 	r.e[1] = w.NewEntity(r.a)
 	r.e[2] = w.NewEntity(r.a)
 	b := ecs.NewBuilder(w, r.r).WithRelation(r.r)
@@ -118,10 +129,9 @@ func (c *LockCfg) New() wx.Run {
 	b2 := ecs.NewBuilder(w, r.r, r.a).WithRelation(r.r)
 	r.e[4] = b2.New(r.e[1])
 	r.e[5] = w.NewEntity()
-	r.cached = w.Cache().Register(ecs.All(r.a))
 	ecs.AddResource(w, &lockRes{V: 1})
-	r.entries = r.structuralEntries()
-	return r
+	r.relTarget = 0
+	r.zOn = false
 }
 
 func (r *LockRun) filter(kind int) ecs.Filter {
@@ -149,7 +159,7 @@ func (r *LockRun) Key(buf []byte) []byte {
 	for _, q := range r.qs {
 		buf = append(buf, byte(q.kind), byte(q.pos+1), byte(len(q.seq)))
 	}
-	buf = append(buf, byte(r.probes), byte(r.relTarget))
+	buf = append(buf, byte(r.probes), byte(r.relTarget), byte(r.resets))
 	if r.regProbed {
 		buf = append(buf, 'P')
 	}
@@ -180,6 +190,9 @@ func (r *LockRun) Enabled() []wx.Op {
 		}
 		if !r.regProbed {
 			ops = append(ops, wx.Op{K: LkRegisterProbe})
+		}
+		if r.resets < r.cfg.Resets {
+			ops = append(ops, wx.Op{K: LkReset})
 		}
 	}
 	return ops
@@ -333,6 +346,14 @@ func (r *LockRun) Apply(op wx.Op) (res wx.Result) {
 		}
 		if w.Alive(e) {
 			return r.fail("probe:not-removed", name+": entity still alive")
+		}
+	case LkReset:
+		r.resets++
+		old := r.e
+		w.Reset()
+		r.seed()
+		if r.e != old {
+			return r.fail("reset:handles", "after Reset the same creations issue different handles than on the fresh world")
 		}
 	case LkRegisterProbe:
 		r.regProbed = true
